@@ -158,6 +158,8 @@ pub struct NetState {
     rng: Rng,
     next_port: u16,
     connects: usize,
+    /// every connect call in order: (virtual ns, dialing ip, remote address)
+    pub connect_log: Vec<(u64, IpAddr, SocketAddr)>,
     pub knobs: NetKnobs,
     /// fault plan: n-th connect call of the run
     pub connect_faults: BTreeMap<usize, ConnectFault>,
@@ -184,6 +186,7 @@ impl SimNet {
                 rng: Rng::fork(seed, "net"),
                 next_port: 40000,
                 connects: 0,
+                connect_log: Vec::new(),
                 knobs,
                 connect_faults: BTreeMap::new(),
                 byte_faults: BTreeMap::new(),
@@ -605,6 +608,7 @@ impl NetBackend for SimNet {
             let mut st = net.lock().unwrap();
             let nth = st.connects;
             st.connects += 1;
+            st.connect_log.push((crate::seams::now_ns(), from_ip, remote));
             let fault = st.connect_faults.get(&nth).cloned();
             let rng = Rng::new(st.rng.next());
             st.next_port += 1;
